@@ -109,6 +109,23 @@ pub struct MacroCall {
 }
 
 thread_local! {
+    static CUR_MODE: std::cell::Cell<&'static str> = const { std::cell::Cell::new("ErrorStop") };
+}
+
+thread_local! {
+    static RECOV: RefCell<Option<Vec<(String, bool, bool)>>> = const { RefCell::new(None) };
+}
+
+/// Start recording recoverable errors: (interaction mode, continued?, located?) per error.
+pub fn recov_start() {
+    CUR_MODE.with(|m| m.set("ErrorStop"));
+    RECOV.with(|v| *v.borrow_mut() = Some(vec![]));
+}
+pub fn recov_take() -> Vec<(String, bool, bool)> {
+    RECOV.with(|v| v.borrow_mut().take().unwrap_or_default())
+}
+
+thread_local! {
     static MACRO_REC: RefCell<Option<Vec<MacroCall>>> = const { RefCell::new(None) };
 }
 
@@ -184,7 +201,14 @@ impl TexlangState for VS {
         &self,
         recoverable_error: texlang::error::TracedTexError,
     ) -> Result<(), Box<dyn texlang::error::TexError>> {
-        errormode::recoverable_error_hook(self, recoverable_error)
+        let located = format!("{recoverable_error}").contains(">>>");
+        let r = errormode::recoverable_error_hook(self, recoverable_error);
+        if RECOV.with(|v| v.borrow().is_some()) {
+            // the interaction mode at the time of the error (tracked by the mode-command wrappers)
+            let mode = CUR_MODE.with(|m| m.get()).to_string();
+            RECOV.with(|v| v.borrow_mut().as_mut().unwrap().push((mode, r.is_ok(), located)));
+        }
+        r
     }
     fn is_current_font_command(&self, tag: command::Tag) -> bool {
         FontComponent::is_current_font_command(self, tag)
@@ -226,6 +250,27 @@ pub fn built_ins() -> HashMap<&'static str, command::BuiltIn<VS>> {
     if USE_SIMPLE_EXPANDAFTER.with(|b| b.get()) {
         m.insert("expandafter", expansion::get_expandafter_simple());
     }
+    // the four interaction-mode commands are wrapped so that the harness knows the current mode
+    macro_rules! wrap_mode {
+        ($name:expr, $label:expr, $slot:ident) => {{
+            static $slot: std::sync::OnceLock<usize> = std::sync::OnceLock::new();
+            if let Some(b) = m.get($name) {
+                if let command::Command::Execution(f, _) = b.cmd() {
+                    let _ = $slot.set(*f as usize);
+                }
+            }
+            fn wrapper(t: token::Token, input: &mut vm::ExecutionInput<VS>) -> txl::Result<()> {
+                CUR_MODE.with(|m| m.set($label));
+                let f: command::ExecutionFn<VS> = unsafe { std::mem::transmute(*$slot.get().unwrap()) };
+                f(t, input)
+            }
+            m.insert($name, command::BuiltIn::new_execution(wrapper));
+        }};
+    }
+    wrap_mode!("errorstopmode", "ErrorStop", F_ERRORSTOP);
+    wrap_mode!("scrollmode", "Scroll", F_SCROLL);
+    wrap_mode!("nonstopmode", "NonStop", F_NONSTOP);
+    wrap_mode!("batchmode", "Batch", F_BATCH);
     m.insert("font", texlang_font::get_font());
     m.insert("fontname", texlang_font::get_fontname());
     m.insert("nullfont", texlang_font::get_nullfont());
@@ -377,14 +422,15 @@ pub fn run_src<HH: vm::Handlers<VS>>(vm: &mut vm::VM<VS>, name: &str, src: &str,
     STEPS.with(|s| s.set(0));
     BUDGET.with(|b| b.set(budget));
     crate::util::reset_last_panic();
+    // rendering the error is part of what must not panic, so it happens inside the catch
     let r = std::panic::catch_unwind(std::panic::AssertUnwindSafe(|| {
         let _ = vm.push_source(name.to_string(), src.to_string());
-        vm.run::<HH>()
+        vm.run::<HH>().map_err(|e| (format!("{e}"), e.error.title()))
     }));
     BUDGET.with(|b| b.set(u64::MAX));
     let outcome = match r {
         Ok(Ok(())) => Outcome::Ok,
-        Ok(Err(e)) => Outcome::Err { rendered: format!("{e}"), title: e.error.title() },
+        Ok(Err((rendered, title))) => Outcome::Err { rendered, title },
         Err(payload) => {
             if payload.downcast_ref::<BudgetExceeded>().is_some() {
                 Outcome::Budget
